@@ -118,15 +118,20 @@ func runC07(c *Ctx) {
 		operand := Pick(r, c07Operands)
 		input := Pick(r, c07Inputs)
 		contactLang := Pick(r, []string{"eng", "fra", "fra", ""})
-		mode := Pick(r, []string{"switch", "switch", "switch", "timeout", "random"})
+		mode := Pick(r, []string{"switch", "switch", "switch", "timeout", "random", "twice"})
 
 		// ---- definition -------------------------------------------------------------------
 		var jcats, jcases, jexits []map[string]any
 		for _, ct := range cats {
 			jcats = append(jcats, map[string]any{"uuid": ct.uuid, "name": ct.name, "exit_uuid": exits[ct.exit]})
 		}
+		nodeUUID := us.next()
 		for _, e := range exits {
-			jexits = append(jexits, map[string]any{"uuid": e})
+			ex := map[string]any{"uuid": e}
+			if mode == "twice" {
+				ex["destination_uuid"] = nodeUUID
+			}
+			jexits = append(jexits, ex)
 		}
 		loc := map[string]any{}
 		for _, cc := range cs {
@@ -149,13 +154,23 @@ func runC07(c *Ctx) {
 		if mode == "timeout" {
 			router["wait"] = map[string]any{"type": "msg", "timeout": map[string]any{"seconds": 60, "category_uuid": cats[tcat].uuid}}
 		}
+		input2 := Pick(r, c07Inputs)
+		if mode == "twice" {
+			// the node waits and every exit loops back to it: the same router routes twice with different operands
+			router["wait"] = map[string]any{"type": "msg"}
+			router["operand"] = "@input.text"
+			operand = "@input.text"
+			if r.Chance(60) {
+				pair := Pick(r, [][2]string{{"red", "the red fox"}, {"7", "I am 7"}, {"yes please", "yes"}, {"blue", "BLUE blue"}, {"x@y.com", "mail x@y.com"}})
+				input, input2 = pair[0], pair[1]
+			}
+		}
 		if mode == "random" {
 			router = map[string]any{"type": "random", "categories": jcats}
 			if resultName != "" {
 				router["result_name"] = resultName
 			}
 		}
-		nodeUUID := us.next()
 		flowUUID := us.next()
 		def13 := map[string]any{"uuid": flowUUID, "name": "R", "spec_version": "13.6.0", "language": "eng", "type": "messaging", "revision": 1,
 			"expire_after_minutes": 60, "localization": map[string]any{"fra": loc},
@@ -194,7 +209,7 @@ func runC07(c *Ctx) {
 			contact.AddURN("tel:+12065550100", nil)
 			tb := triggers.NewBuilder(env, assets.NewFlowReference(assets.FlowUUID(flowUUID), "R"), contact)
 			var trig flows.Trigger
-			if mode == "timeout" {
+			if mode == "timeout" || mode == "twice" {
 				trig = tb.Manual().Build()
 			} else {
 				trig = tb.Msg(flows.NewMsgIn("0d1c5a36-fff5-4a0f-a2c7-02f7c7f3c4a8", "tel:+12065550100", nil, input, nil)).Build()
@@ -210,24 +225,54 @@ func runC07(c *Ctx) {
 					return
 				}
 			}
+			if mode == "twice" {
+				for _, in := range []string{input, input2} {
+					if s.Status() != flows.SessionStatusWaiting {
+						break
+					}
+					if _, err := s.Resume(resumes.NewMsg(nil, nil, flows.NewMsgIn(flows.MsgUUID(us.next()), "tel:+12065550100", nil, in, nil))); err != nil {
+						c.Fail("monitor", "M-route", "go-error", "Resume returned an error: "+err.Error(), desc)
+						return
+					}
+				}
+			}
 			session = s
 		})
 		if !ok || session == nil {
 			continue
 		}
 		run := session.Runs()[0]
-		if len(run.Path()) != 1 {
+		routedStep := 0
+		if mode == "twice" {
+			// the routing compared is the last one carried out (the step before the one now waiting), with the last input
+			if len(run.Path()) < 2 {
+				c.Count("C07-twice-did-not-route")
+				continue
+			}
+			routedStep = len(run.Path()) - 2
+			if run.Status() == flows.RunStatusFailed {
+				routedStep = len(run.Path()) - 1
+			}
+			if len(run.Path()) == 3 || (len(run.Path()) == 2 && run.Status() == flows.RunStatusFailed && session.Input() != nil) {
+				desc["input"] = input2
+			}
+			if len(run.Path()) == 2 && run.Status() != flows.RunStatusFailed {
+				desc["input"] = input
+			}
+		} else if len(run.Path()) != 1 {
 			c.Fail("monitor", "M-route", "unexpected-path", fmt.Sprintf("expected one step, got %d", len(run.Path())), desc)
 			continue
 		}
 		gotExit := "-"
 		for ei, e := range exits {
-			if string(run.Path()[0].ExitUUID()) == e {
+			if string(run.Path()[routedStep].ExitUUID()) == e {
 				gotExit = fmt.Sprint(ei)
 			}
 		}
 		got := "exit " + gotExit
-		if resultName != "" && run.Results().Get(utils.Snakify(resultName)) != nil {
+		if mode == "twice" && gotExit == "-" {
+			got += " noresult" // no category this time: a result left by the first routing is not this routing's
+		} else if resultName != "" && run.Results().Get(utils.Snakify(resultName)) != nil {
 			res := run.Results().Get(utils.Snakify(resultName))
 			got += fmt.Sprintf(" result %s %s %s %s", hx(res.Name), hx(res.Value), hx(res.Category), hx(res.Input))
 		} else {
@@ -243,7 +288,7 @@ func runC07(c *Ctx) {
 		if resultName != "" {
 			rn = hx(resultName)
 		}
-		var op, want string
+		var op, want, lastOperand string
 		switch mode {
 		case "random":
 			digits := strings.TrimPrefix(draw, "0.")
@@ -315,9 +360,18 @@ func runC07(c *Ctx) {
 			}
 			op = fmt.Sprintf("rswitch %s %s %s %s %s %s", strings.Join(catSpec, ","), encList(caseCats, ","), d, rn, hx(opStr), encList(outs, ","))
 			want = strings.Join(outs, ",")
+			lastOperand = opStr
 		}
 		desc["model_op"] = op
 		c.Model("route", op, got, desc)
+		if mode == "switch" || mode == "twice" {
+			// M: the statement itself - first matching case in definition order, else default, else no category
+			wantM := prescribed(strings.Split(want, ","), cs2cats(cs), def, catExits(cats2(cats)), catNames(cats2(cats)), resultName, lastOperand)
+			if wantM != got {
+				c.Fail("monitor", "M-first-match", "switch-routing-differs-from-definition", "the router did not take the exit / save the result its definition prescribes",
+					map[string]any{"assets": json.RawMessage(aj), "input": desc["input"], "contact_language": contactLang, "mode": mode, "outcomes": want, "prescribed": wantM, "implementation": got})
+			}
+		}
 		c.Eval(fmt.Sprintf("%s|%s|%d|%s|%v", mode, want, def, gotExit, resultName != ""))
 		c.Count("check:route:" + mode)
 		if i < 3 {
@@ -335,4 +389,69 @@ func zeroIfEmpty(s string) string {
 		return "0"
 	}
 	return ""
+}
+
+type catLite struct {
+	name string
+	exit int
+}
+
+func cats2[T any](cs []T) []catLite {
+	out := make([]catLite, len(cs))
+	for i := range cs {
+		v := fmt.Sprintf("%v", cs[i]) // {uuid name exit}
+		parts := strings.Fields(strings.Trim(v, "{}"))
+		e := 0
+		fmt.Sscan(parts[len(parts)-1], &e)
+		out[i] = catLite{strings.Join(parts[1:len(parts)-1], " "), e}
+	}
+	return out
+}
+
+func catExits(cs []catLite) []int {
+	out := make([]int, len(cs))
+	for i, c := range cs {
+		out[i] = c.exit
+	}
+	return out
+}
+
+func catNames(cs []catLite) []string {
+	out := make([]string, len(cs))
+	for i, c := range cs {
+		out[i] = c.name
+	}
+	return out
+}
+
+func cs2cats(cs []c07Case) []int {
+	out := make([]int, len(cs))
+	for i, c := range cs {
+		out[i] = c.cat
+	}
+	return out
+}
+
+// the routing the definition prescribes, from the outcomes of the cases' tests
+func prescribed(outs []string, caseCats []int, def int, exits []int, names []string, resultName, operand string) string {
+	cat, value := -1, ""
+	for i, o := range outs {
+		if strings.HasPrefix(o, "m") && i < len(caseCats) {
+			cat, value = caseCats[i], unhx(o[1:])
+			break
+		}
+	}
+	if cat < 0 && def >= 0 {
+		cat, value = def, operand
+	}
+	if cat < 0 {
+		return "exit - noresult"
+	}
+	s := fmt.Sprintf("exit %d", exits[cat])
+	if resultName != "" {
+		s += fmt.Sprintf(" result %s %s %s %s", hx(resultName), hx(value), hx(names[cat]), hx(operand))
+	} else {
+		s += " noresult"
+	}
+	return s
 }
